@@ -15,6 +15,7 @@ What the assembly changes (and nothing else; anything unexpected -> Undecided):
       `$array.into_iter().flatten().collect::<Vec<_>>()`); both are external_body functions with an assumed std specification
   W11 `fn f(mut self, ..) { B }` -> `fn f(self, ..) { let mut vx_self = self; B[self := vx_self] }` (Verus has no `mut self` parameters)
   W7 `struct_keep`: a struct is reduced to the fields the units under contract read (names and types verbatim, generics dropped)
+  W12 associated `const` items of a type whose methods are under contract are copied verbatim into the emitted impl
   W4 requires/ensures/invariant/decreases/proof text from the .vspec file is inserted before the body / loop body /
      a named statement. The .vspec text contains no executable statements.
 """
@@ -242,6 +243,21 @@ def assemble(spec_path, layout):
             slices.append({"item": "struct %s (fields %s)" % (name, ", ".join(keep)), "slice_sha": extract.sha(extract.text_of(tree, st))})
         elif item[0] == "impl":
             parts.append(item[1] + " {\n")
+            # W12: associated consts of the same type are copied verbatim (functions under contract may read them)
+            done_consts = set()
+            for file, path in item[2]:
+                tree = extract.vx_dump(extract.src_path(file))
+                ty = path.split("::")[0]
+                if (file, ty) in done_consts: continue
+                done_consts.add((file, ty))
+                def walk(items):
+                    for it in items:
+                        if it.get("k") == "impl" and it.get("self_name") == ty and not it.get("trait"):
+                            for ii in it["items"]:
+                                if ii.get("k") == "const":
+                                    parts.append("    pub const %s: %s = %s;\n" % (ii["name"], ii["ty"], extract.text_of(tree, ii["e"])))
+                        elif it.get("k") == "mod" and it.get("items"): walk(it["items"])
+                walk(tree["items"])
             for file, path in item[2]:
                 tree = extract.vx_dump(extract.src_path(file))
                 fn = extract.find_fn(tree, path)
